@@ -1287,6 +1287,90 @@ def where_in_a_long_lived_process(chk):
         chk.coverage["traces_validated_against_impl"] += len(steps)
 
 
+def versions_from_an_old_format_index(chk):
+    """Versions recorded by Conductor <= 0.4 (index format 1: task, timestamp and a `git_commit` column that never held a real
+    commit) are versions "without a commit": the documented rule falls back to the newest of them when no recorded version
+    carries a commit -- so in a git project they stay usable after the in-place upgrade: `cond where` reports the newest one,
+    a dependent finds it in COND_DEPS and the experiment is not run again.  (Seeds C05/k and C02/l: the upgrade kept the
+    placeholder of the old column as a commit hash; no version was selectable any more.)"""
+    import implrun
+    import select_util as su2
+
+    for placeholder in ("unknown", ""):
+        files = {"COND": 'run_experiment(name="e", run="echo new > $COND_OUT/r")\nrun_command(name="d", run="printf %s \\"$COND_DEPS\\" > $COND_OUT/deps.txt", deps=[":e"])\n',
+                 ".gitignore": "cond-out\n", "cond_config.toml": ""}
+        root = implrun.make_project(files, git=True)
+        for a in (("init", "-q", "-b", "main"), ("config", "user.email", "v@example.org"), ("config", "user.name", "v"), ("add", "-A"), ("commit", "-q", "-m", "c0")):
+            su2.git(root, *a)
+        out = os.path.join(root, "cond-out")
+        for ts in (1600000000, 1600000500):
+            os.makedirs(os.path.join(out, "e.task.%d" % ts))
+            open(os.path.join(out, "e.task.%d" % ts, "r"), "w").write("old %d\n" % ts)
+        conn = sqlite3.connect(os.path.join(out, "version_index.sqlite"))
+        conn.execute("CREATE TABLE version_index (task_identifier TEXT NOT NULL, timestamp INTEGER NOT NULL, git_commit TEXT NOT NULL, PRIMARY KEY (task_identifier, timestamp))")
+        conn.executemany("INSERT INTO version_index VALUES ('//:e', ?, ?)", [(1600000500, placeholder), (1600000000, placeholder)])
+        conn.execute("PRAGMA user_version = 1")
+        conn.commit()
+        conn.close()
+        newest = os.path.join(out, "e.task.1600000500")
+        w = implrun.run_cond(["where", "//:e"], root)
+        r = implrun.run_cond(["run", "//:d"], root)
+        deps_file = os.path.join(out, "d.task", "deps.txt")
+        deps = open(deps_file).read() if os.path.exists(deps_file) else None
+        dirs = sorted(d for d in os.listdir(out) if d.startswith("e.task."))
+        chk.coverage["evaluations"] += 2
+        chk.count("e2e", "old-format-index", 2)
+        problems = []
+        if w.code != 0 or implrun.strip_ansi(w.out).strip() != newest:
+            problems.append("`cond where //:e` -> exit %s %r, the newest commit-less version is %s" % (w.code, implrun.strip_ansi(w.out + w.err).strip()[-200:], newest))
+        if r.code != 0 or deps != newest:
+            problems.append("`cond run //:d` -> exit %s, COND_DEPS of //:d = %r (the newest commit-less version is %s)" % (r.code, deps, newest))
+        if dirs != ["e.task.1600000000", "e.task.1600000500"]:
+            problems.append("//:e was executed again although a usable version exists: %r" % dirs)
+        for msg in problems[:2]:
+            chk.violation("impl-violation", "a git project whose index was written by Conductor <= 0.4 (format 1, git_commit=%r): %s" % (placeholder, msg),
+                          {"input": {"part": "old-format-index", "placeholder": placeholder, "files": files}, "impl_observation": {"where": [w.code, w.out[-200:]], "run": [r.code, r.out[-300:]], "dirs": dirs, "deps": deps},
+                           "oracle_verdict": msg}, match_key={"part": "old-format-index"}, size=3)
+        if not problems:
+            chk.coverage["traces_validated_against_impl"] += 2
+
+
+def where_agrees_with_cond_deps_during_the_run(chk):
+    """The version a dependent is GIVEN (COND_DEPS) is the version `cond where` / conductor.lib.where() REPORT when asked
+    while that dependent runs -- from inside the dependent or from a second terminal --, and the one they report after the
+    run; also with --again over an earlier version.  (Seed C05/l: versions were committed to the index once per plan, so
+    a query made during the run saw the previous version, or none.)"""
+    import implrun
+
+    py = sys.executable
+    ask = "%s -m conductor where //:e > $COND_OUT/where.txt 2> $COND_OUT/where.err; printf %%s \"$COND_DEPS\" > $COND_OUT/deps.txt" % py
+    files = {"COND": 'run_experiment(name="e", run="echo x > $COND_OUT/r")\nrun_command(name="d", run=%r, deps=[":e"])\n' % ask}
+    root = implrun.make_project(files)
+    steps = []
+    for argv in (["run", "//:d"], ["run", "//:d", "--again"]):
+        r = implrun.run_cond(argv, root, timeout=120)
+        dd = os.path.join(root, "cond-out", "d.task")
+        rd = lambda n: open(os.path.join(dd, n)).read().strip() if os.path.exists(os.path.join(dd, n)) else None  # noqa: E731
+        after = implrun.run_cond(["where", "//:e"], root)
+        steps.append((" ".join(argv), r.code, rd("deps.txt"), rd("where.txt"), rd("where.err"), implrun.strip_ansi(after.out).strip()))
+    chk.coverage["evaluations"] += len(steps)
+    chk.count("e2e", "where-during-the-run", len(steps))
+    problems = []
+    for what, code, deps, inside, err, after in steps:
+        if code != 0 or not deps:
+            problems.append("`cond %s` exited %s (COND_DEPS %r)" % (what, code, deps))
+        elif inside != deps:
+            problems.append("`cond %s`: //:d was given COND_DEPS=%s but `cond where //:e`, asked while //:d ran, reported %r %s" % (what, deps, inside, (err or "")[-120:]))
+        elif after != deps:
+            problems.append("`cond %s`: //:d was given COND_DEPS=%s but `cond where //:e` reports %r after the run" % (what, deps, after))
+    for msg in problems[:2]:
+        chk.violation("impl-violation", "the version handed to a dependent vs the version `cond where` reports: %s" % msg,
+                      {"input": {"part": "where-during-the-run", "files": files}, "impl_observation": [list(map(str, st)) for st in steps], "oracle_verdict": msg},
+                      match_key={"part": "where-during-the-run"}, size=3)
+    if not problems:
+        chk.coverage["traces_validated_against_impl"] += len(steps)
+
+
 # ============================================================================= entry point
 def run(tier, seed, replay=None):
     chk = Check("C05", tier, seed)
@@ -1318,6 +1402,8 @@ def run(tier, seed, replay=None):
     n_e2e = part_e2e(chk, tier)
     below_a_cached_experiment(chk)
     where_in_a_long_lived_process(chk)
+    versions_from_an_old_format_index(chk)
+    where_agrees_with_cond_deps_during_the_run(chk)
     import c07 as _c07   # task names are case sensitive: a version of //:Prep is no version of //:prep (seed C07/i)
 
     _c07.names_differing_in_case(chk)
